@@ -31,11 +31,15 @@ a Gen_admin.vo that was compiled from other text is detected and recompilation i
 import ast
 import hashlib
 import os
+import sys
 
-from vt import common
-from vt.coqio import cstr
-from translator import py2coq
-from translator.py2coq import FunctionTranslator, Unsupported, vname
+if __name__ == '__main__':
+    sys.path.insert(0, os.path.dirname(os.path.dirname(os.path.abspath(__file__))))
+
+from vt import common  # noqa: E402
+from vt.coqio import cstr  # noqa: E402
+from translator import py2coq  # noqa: E402
+from translator.py2coq import FunctionTranslator, Unsupported, vname  # noqa: E402
 
 OUT = 'Admin/Gen_admin.v'
 SOURCES = [('src/socketio/admin.py', 'InstrumentedServer'),
@@ -360,7 +364,15 @@ def translate_source(source, cls_name):
     cls = cls[0]
     if cls.bases or cls.decorator_list:
         raise Unsupported(cls, 'class %s has bases / decorators' % cls_name)
-    out = ['Definition %s_attrs : list (str * pv) := [].\n\n' % cls_name]
+    # class attributes = the methods (bound-method objects are opaque, identified by name);
+    # instance attributes win, as in Python
+    meths = [n.name for n in cls.body if isinstance(n, (ast.FunctionDef, ast.AsyncFunctionDef))]
+    for n in cls.body:
+        if not isinstance(n, (ast.FunctionDef, ast.AsyncFunctionDef)) and not (
+                isinstance(n, ast.Expr) and isinstance(n.value, ast.Constant)):
+            raise Unsupported(n, 'class body statement %s' % type(n).__name__)
+    out = ['Definition %s_attrs : list (str * pv) :=\n  [%s].\n\n' % (
+        cls_name, ';\n   '.join('(%s, PStr %s)' % (cstr(m), cstr(cls_name + '.' + m)) for m in meths))]
     try:
         f = AdminFn(cls_name, the_method(cls, 'admin_connect'), info)
         out.append(f.translate() + '\n')
@@ -373,7 +385,7 @@ def translate_source(source, cls_name):
     out.append('Definition %s_admin_connect_is_async : bool := %s.\n' % (
         cls_name, 'true' if isinstance(f.fn, ast.AsyncFunctionDef) else 'false'))
     out.append('Definition %s_admin_connect_ext_calls : list str := [%s].\n\n' % (
-        cls_name, '; '.join(cstr(x) for x in f.ext_calls)))
+        cls_name, '; '.join(cstr(x) for x in dict.fromkeys(f.ext_calls))))
     try:
         out.append(InstrumentFn(cls_name, the_method(cls, 'instrument'), info).translate() + '\n')
     except Unsupported as e:
@@ -439,7 +451,5 @@ def regenerate():
 
 
 if __name__ == '__main__':
-    import sys
-    sys.path.insert(0, os.path.dirname(os.path.dirname(os.path.abspath(__file__))))
     for m in regenerate():
         print(m)
